@@ -129,13 +129,15 @@ pub struct Knobs {
     pub p_forward: u64,
     /// names of the conventions subs may be annotated with ("" = None)
     pub sub_cconvs: Vec<String>,
+    /// chance (in 1/100) that a jump target / return site is simply the next block (straight-line chains)
+    pub p_chain: u64,
 }
 impl Default for Knobs {
     fn default() -> Knobs {
         Knobs {
             subs: (1, 3), blocks: (1, 5), w_branch: 20, w_cbranch: 25, w_cbranch_ret: 5, w_return: 12, w_ext_call: 25,
             w_int_call: 10, w_callind: 4, w_branchind: 4, w_nojump: 2, w_callother: 1, w_single_cbranch: 1,
-            p_no_ret: 10, p_empty_sub: 4, p_forward: 60, sub_cconvs: vec!["".to_string()],
+            p_no_ret: 10, p_empty_sub: 4, p_forward: 60, sub_cconvs: vec!["".to_string()], p_chain: 0,
         }
     }
 }
@@ -202,6 +204,9 @@ pub fn gen_program(rng: &mut Rng, k: &Knobs, externs: &[ExternSymbol], hooks: &m
             let defs: Vec<Term<Def>> = hooks.defs(rng, &ctx).into_iter().map(|d| Term { tid: next_tid(&mut instr), term: d }).collect();
             let pick_target = |rng: &mut Rng| -> Tid {
                 let nb = n_blks[s];
+                if b + 1 < nb && rng.chance(k.p_chain, 100) {
+                    return blk_tid(s, b + 1);
+                }
                 let t = if rng.chance(k.p_forward, 100) && b + 1 < nb { rng.range(b as i64 + 1, nb as i64 - 1) as usize } else { rng.below(nb as u64) as usize };
                 blk_tid(s, t)
             };
